@@ -108,6 +108,28 @@ def extra_calls():
             add("isclose-tol", mk_np, lambda A, B: A.isclose(A, rtol=1e-3, atol=1e-3), "np")
             add("allclose", mk_np, lambda A, B: numpy.allclose(A, A), "np")
             add("to_list", mk_ak, lambda A, B: ak.to_list(A), "akarr")
+    # calls that raise *inside* the compute layer (after the error-state context was entered)
+    def mk_mismatched_np():
+        a = vector.array({"x": numpy.array([1.0, 2.0]), "y": numpy.array([3.0, 4.0])})
+        b = vector.array({"x": numpy.array([1.0, 2.0, 3.0]), "y": numpy.array([3.0, 4.0, 5.0])})
+        return a, b
+    def mk_obj_and_sympy():
+        import sympy
+        a = vector.obj(x=1.0, y=2.0)
+        b = vector.VectorSympy2D(x=sympy.Symbol("x"), y=sympy.Symbol("y"))
+        return a, b
+    def mk_mismatched_ak():
+        a = vector.Array([[{"x": 1.0, "y": 2.0}], []])
+        b = vector.Array([[{"x": 1.0, "y": 2.0}, {"x": 1.0, "y": 2.0}], []])
+        return a, b
+    def mk_bad_transform():
+        return vector.obj(x=1.0, y=2.0), None
+    for nm in ("add", "dot", "deltaphi", "isclose"):
+        add("raises-inside:broadcast-" + nm, mk_mismatched_np, lambda A, B, nm=nm: getattr(A, nm)(B), "np")
+        add("raises-inside:libs-" + nm, mk_obj_and_sympy, lambda A, B, nm=nm: getattr(A, nm)(B), "obj")
+        add("raises-inside:ak-broadcast-" + nm, mk_mismatched_ak, lambda A, B, nm=nm: getattr(A, nm)(B), "akarr")
+    add("raises-inside:transform-missing-key", mk_bad_transform, lambda A, B: A.transform2D({"xx": 1.0}), "obj")
+    add("raises-inside:rotate-bad-angle", mk_bad_transform, lambda A, B: A.rotateZ("angle"), "obj")
     # constructors handed the caller's own containers
     for names in (("x", "y"), ("px", "py"), ("pt", "phi", "eta", "mass"), ("rho", "phi", "z", "t")):
         def mk_struct(names=names):
@@ -153,7 +175,37 @@ def catalogue(type_cases, limit=None, salt="c"):
     if limit and len(items) > limit:
         step = len(items) / float(limit)
         items = [items[int(i * step)] for i in range(limit)]
-    return items + extra_calls()
+    # every method once more with a poisoned object operand (first, and for binary methods also second):
+    # the exception is raised inside the compute layer, the process state must still be restored
+    seen, poisoned = set(), []
+    for tc in type_cases:
+        if tc["req"]["out"] != "vec" and tc["req"]["out"] not in ("num", "bool"):
+            continue
+        if tc["a"][0] != "obj" or tc["b"][0] not in ("obj", "none"):
+            continue
+        key = (tc["m"], tc["a"][2], tc["b"][2] if tc["b"][0] != "none" else 0)
+        if key in seen:
+            continue
+        seen.add(key)
+        db = tc["b"][2] if tc["b"][0] != "none" else 0
+        sa = coords.signatures(tc["a"][2])[-1]
+        sb = coords.signatures(db)[-1] if db else None
+        for which in (["a", "b"] if db else ["a"]):
+            poisoned.append({"name": "poisoned:" + tc["m"], "tc": tc, "sa": sa, "sb": sb, "backend": "obj", "poison": which})
+    return items + poisoned + extra_calls()
+
+
+def poison(v):
+    """An object vector whose stored coordinates are not numbers: every computation on it raises from
+    inside the compute function, i.e. after the dispatcher entered its error-state context."""
+    from vector.backends import object as vobj
+
+    g = {"azimuthal": type(v.azimuthal)(None, "not-a-number")}
+    if hasattr(v, "longitudinal"):
+        g["longitudinal"] = type(v.longitudinal)(None)
+    if hasattr(v, "temporal"):
+        g["temporal"] = type(v.temporal)(None)
+    return type(v)(**g)
 
 
 def perform(item):
@@ -162,6 +214,10 @@ def perform(item):
         tc = item["tc"]
         A = typesx.build(tc["a"], item["sa"], 0)
         B = typesx.build(tc["b"], item["sb"], 1) if tc["b"][0] != "none" else None
+        if item.get("poison") == "a":
+            A = poison(A)
+        elif item.get("poison") == "b":
+            B = poison(B)
         return A, B, (lambda: typesx.invoke(tc["m"], A, B))
     A, B = item["build"]()
     return A, B, (lambda: item["call"](A, B))
